@@ -73,14 +73,18 @@ class LaStub:
 
 
 def polar_stub(matrix, left=True):
-    """tensors.polar_decompose as seen by its caller: two arbitrary 3x3 matrices per call."""
+    """tensors.polar_decompose as seen by its caller: a deterministic but otherwise arbitrary
+    function of the matrix (two 3x3 results whose cells are uninterpreted functions of the 9 entries)."""
     c = sym.ctx()
-    n = len(c.notes.setdefault("polar_calls", []))
-    from .quat import symmat
-
-    out = (symmat(f"polR!{n}_"), symmat(f"polU!{n}_"))
-    c.notes["polar_calls"].append((matrix, out))
-    return out
+    args = [R(x) for x in np.asarray(matrix, dtype=object).flat]
+    outs = []
+    for name in ("polR", "polU"):
+        o = np.empty((3, 3), dtype=object)
+        for ij in np.ndindex(3, 3):
+            o[ij] = c.ufs.generic(f"{name}{ij[0]}{ij[1]}_{int(bool(left))}", *args)
+        outs.append(o.view(SArr))
+    c.notes.setdefault("polar_calls", []).append((matrix, outs))
+    return tuple(outs)
 
 
 # ---------------------------------------------------------------------------------------
